@@ -103,7 +103,7 @@ void harness(void)
         node_boot();
         node.Sync.CobId = ND_U32();
         ASSUME((node.Sync.CobId & 0x3FFFF800u) == 0);
-        f.Identifier = ND_U32() & 0x1FFFFFFFu; f.DLC = (uint8_t)ND_RANGE(0, 8); ND_BUF(f.Data, 8);
+        f.Identifier = ND_U32(); f.DLC = (uint8_t)ND_RANGE(0, 8); ND_BUF(f.Data, 8);   /* all 32 bits: bits 29..31 mark extended / remote frames */
         r = COSyncUpdate(&node.Sync, &f);
         CHECK((r >= 0) == (f.Identifier == (node.Sync.CobId & 0x7FF)), "frame is a SYNC exactly when its identifier equals the CAN-ID of 1005h");
         COVER(r >= 0, "match");
